@@ -192,11 +192,7 @@ where
         self.prompt = prompt;
         self.clear_line(false)?;
 
-        if let Some(editor) = self.editor.as_mut() {
-            self.writer.flush_str(editor.text())?;
-        }
-
-        Ok(())
+        self.write_input()
     }
 
     pub fn write(
@@ -214,11 +210,18 @@ where
             self.writer.write_str(codes::CRLF)?;
         }
         self.writer.write_str(self.prompt)?;
-        if let Some(editor) = self.editor.as_mut() {
-            self.writer.flush_str(editor.text())?;
-        }
+        self.write_input()
+    }
 
-        Ok(())
+    /// Writes current input and moves terminal cursor back to the position of editor cursor
+    fn write_input(&mut self) -> Result<(), E> {
+        if let Some(editor) = self.editor.as_ref() {
+            self.writer.write_str(editor.text())?;
+            for _ in editor.cursor()..editor.len() {
+                self.writer.write_bytes(codes::CURSOR_BACKWARD)?;
+            }
+        }
+        self.writer.flush()
     }
 
     fn clear_line(&mut self, clear_prompt: bool) -> Result<(), E> {
